@@ -2,7 +2,8 @@ import FiberModel.DriverUtil
 import FiberModel.C02.Known
 /-
 Driver for C02. Case fields (after the id):
-  cfg(3 bits CaseSensitive StrictRouting UnescapePath)  use(0/1)  pattern(hex)  path(hex)
+  cfg(3 bits CaseSensitive StrictRouting UnescapePath)  mode(0 GET / 1 Use / 2 GET of a sub-app
+  mounted under /m)  pattern(hex)  path(hex)
   customs(hexlist)  vtf  vts  implObs
 vtf / vts: `hex(key)=hexlist(values with verdict true)` joined by `;` (`-` = none): verdicts of the
 abstractly modelled constraints over the '/'-free substrings of the user-visible path, vtf from the
@@ -31,18 +32,26 @@ def absOf (t : Table) (c : Constraint) (v : Bytes) : Bool :=
   | some e => e.2.contains v
   | none => false
 
-/-- abstract constraints of a segment list whose key is missing from the table -/
-def missingKeys (custom : List Bytes) (t : Table) (segs : List Seg) : Bool :=
+/-- abstract constraints of a segment list whose key is missing from the table; `std` = the table
+    is the standard-library one of the spec oracle, which also decides float and guid (the model
+    decides those two itself) -/
+def missingKeys (std : Bool) (custom : List Bytes) (t : Table) (segs : List Seg) : Bool :=
   segs.any fun s => s.constraints.any fun c =>
-    (custom.contains c.name || c.id == .float || c.id == .guid || c.id == .datetime || c.id == .regex) &&
+    (custom.contains c.name || (std && (c.id == .float || c.id == .guid)) || c.id == .datetime || c.id == .regex) &&
     !(c.data.isEmpty && (c.id == .datetime || c.id == .regex) && !custom.contains c.name) &&
     (t.find? (·.1 == Constraint.key c)).isNone
+
+/-- the spec oracle's constraint evaluator: float and guid by the standard library's verdicts
+    (independent of the model's transcription), the rest as documented -/
+def specCheck (custom : List Bytes) (std : Constraint → Bytes → Bool) (c : Constraint) (v : Bytes) : Bool :=
+  if !custom.contains c.name && (c.id == .float || c.id == .guid) then std c v
+  else checkConstraint custom std c v
 
 def renderObs (o : Obs) : String :=
   if o.panic then "panic"
   else if o.ran == 0 then s!"ran=0;st={o.status}"
   else s!"ran={o.ran};st={o.status};path={toHexField o.path};rpath={toHexField o.rpath};" ++
-       s!"names={hexListField o.names};vals={hexListField o.vals}"
+       s!"names={hexListField o.names};vals={hexListField o.vals};xk={hexListField o.extra}"
 
 def parseObs (s : String) : Option Obs :=
   if s == "panic" then some { panic := true }
@@ -54,20 +63,28 @@ def parseObs (s : String) : Option Obs :=
     let st ← (← get "st").toNat?
     if ran == 0 then pure { ran := 0, status := st }
     else pure { ran := ran, status := st, path := ← (get "path").bind fromHex, rpath := ← (get "rpath").bind fromHex,
-                names := ← (get "names").bind hexList, vals := ← (get "vals").bind hexList }
+                names := ← (get "names").bind hexList, vals := ← (get "vals").bind hexList,
+                extra := ← (get "xk").bind hexList }
+
+/-- mode 2: the route lives in a sub-app mounted under `/m`; mount.go / router.go `addPrefixToRoute`
+    prefix the path as it was registered (`getGroupPath`: an empty path is the prefix itself) and
+    parse the prefixed path exactly as `register` does -/
+def mountPrefix : Bytes := b "/m"
+
+def effectivePattern (mode : Nat) (pattern : Bytes) : Bytes :=
+  if mode == 2 then
+    (if pattern.isEmpty then mountPrefix
+     else mountPrefix ++ (if pattern.headD 0 != SLASH then SLASH :: pattern else pattern))
+  else pattern
 
 /-- the model of one request against a single-route app -/
-def serve (custom : List Bytes) (abs : Constraint → Bytes → Bool) (cfg : Config) (use : Bool)
+def serve (custom : List Bytes) (abs : Constraint → Bytes → Bool) (cfg : Config) (mode : Nat)
     (pattern reqPath : Bytes) : Obs :=
-  match register cfg use pattern with
-  | none => { panic := true }
-  | some r =>
-    let (path, det) := configDependentPaths cfg reqPath
-    match dispatch1 (checkConstraint custom abs) r det path with
-    | none => { ran := 0, status := 404 }
-    | some vals =>
-      { ran := 1, status := 200, path := path, rpath := r.pathRaw, names := r.params,
-        vals := r.params.map (paramsLookup cfg r.params vals) }
+  let use := mode == 1
+  -- a mounted route is first registered on the sub-app under its own pattern
+  if mode == 2 && (register cfg false pattern).isNone then { panic := true }
+  else
+  modelObs (checkConstraint custom abs) cfg use (effectivePattern mode pattern) reqPath
 
 def parseCfg (s : String) : Option Config :=
   match s.toList with
@@ -81,9 +98,11 @@ def handleCase (f : List String) : Except String Verdict := do
   match f with
   | [id, cfg, use, pat, path, customs, vtf, vts, impl] =>
     let some cfg := parseCfg cfg | throw "outside-domain: cfg"
-    unless use == "0" || use == "1" do throw "outside-domain: use"
-    let use := use == "1"
-    let some pat := fromHex pat | throw "outside-domain: pattern"
+    unless use == "0" || use == "1" || use == "2" do throw "outside-domain: mode"
+    let mode : Nat := if use == "1" then 1 else if use == "2" then 2 else 0
+    let use := mode == 1
+    let some pat0 := fromHex pat | throw "outside-domain: pattern"
+    let pat := effectivePattern mode pat0
     let some path := fromHex path | throw "outside-domain: path"
     let some customs := hexList customs | throw "outside-domain: customs"
     let some vtf := parseTable vtf | throw "outside-domain: vtf"
@@ -91,34 +110,31 @@ def handleCase (f : List String) : Except String Verdict := do
     unless path.headD 0 == SLASH && !(path.take 2 == [SLASH, SLASH]) && !path.contains 63 && !path.contains 35 do
       throw "outside-domain: request path must start with one '/', no query/fragment"
     let some io := parseObs impl | throw "outside-domain: observation"
-    let mo := serve customs (absOf vtf) cfg use pat path
+    let mo := serve customs (absOf vtf) cfg mode pat0 path
     let declared := (parseRoute (rawPattern pat)).map (·.segs)
-    let routed := (parseRoute (prettyPattern cfg pat)).map (·.segs)
-    match declared, routed with
-    | some declared, some routed =>
-      let outside := missingKeys customs vtf routed || missingKeys customs vts declared
-      let chkDecl := checkConstraint customs (absOf vts)
+    let written := (parseRoute (writtenPattern cfg pat)).map (·.segs)
+    let routed := (register cfg use pat).map (·.parser.segs)
+    match declared, written, routed with
+    | some declared, some written, some routed =>
+      let outside := missingKeys false customs vtf routed || missingKeys true customs vts written
+      let chkDecl := specCheck customs (absOf vts)
       -- duplicate parameter names (case-insensitively unless CaseSensitive): Params(name) cannot
       -- report the positional values, the substitution clause is not evaluable (documented assumption)
       let declNames := (paramSegs declared).map (fun s => if cfg.caseSensitive then s.paramName else toLower s.paramName)
       let dup := declNames.eraseDups.length != declNames.length
-      let spec := if outside || dup then none else specViolation cfg use declared routed chkDecl io
-      -- known finding K1 only explains a `constraints` failure on a fold-sensitive constraint
-      let known : Option String :=
-        if spec == some "constraints" && Known.K1 cfg customs declared &&
-           (match constraintViolation chkDecl (paramSegs declared) io.vals with
-            | some (_, c) => Known.foldSensitive customs c | none => false)
-        then some "K1" else none
+      let spec := if outside || dup then none else specViolation cfg use declared written routed chkDecl io
       let kind := if (paramSegs routed).isEmpty then "literal"
                   else if (paramSegs routed).any (·.isGreedy) then "greedy" else "named"
       let hasC := (paramSegs routed).any (!·.constraints.isEmpty)
       let nt := if io.ran == 1 && !(paramSegs routed).isEmpty then ["nt-match"]
                 else if io.ran == 0 && hasC then ["nt-reject-constrained"] else []
-      let tags := [if use then "use" else "get", kind, if io.ran == 1 then "ran" else "notran"] ++
-                  (if hasC then ["constrained"] else []) ++ nt ++ (if outside then ["outside-model"] else []) ++ (if dup then ["dup-names"] else [])
+      let tags := [if use then "use" else if mode == 2 then "mount" else "get", kind, if io.ran == 1 then "ran" else "notran"] ++
+                  (if hasC then ["constrained"] else []) ++ nt ++ (if outside then ["outside-model"] else []) ++
+                  (if dup then ["dup-names"] else []) ++
+                  (if Known.wasK1 cfg customs written then [if io.ran == 1 then "nt-foldsens-ran" else "nt-foldsens-notran"] else [])
       pure { id := id, modelObs := if outside then impl else renderObs mo, implObs := impl, spec := spec,
-             known := known, tags := tags }
-    | _, _ =>
+             known := none, tags := tags }
+    | _, _, _ =>
       -- the model says registration panics: nothing is served, the property is silent
       pure { id := id, modelObs := renderObs mo, implObs := impl, spec := none, tags := ["reg-panic"] }
   | _ => throw s!"outside-domain: expected 9 fields, got {f.length}"
